@@ -5,17 +5,20 @@ import "verif/internal/eng"
 func init() {
 	register(&Property{
 		ID: "C04",
-		Explanation: "Decides: (fresh-nonce) every call of (*crypto.Key).Seal in the program takes a nonce that originates solely from a crypto.NewRandomNonce() call in the same function, that call feeds exactly one Seal, and the Seal cannot be re-executed without a new nonce call; (rng) NewRandomNonce/NewRandomKey/NewSalt fill the returned buffer from crypto/rand.Read and a short or failed read cannot reach a return; (ciphertext-only) everything added to a pack, written to the pack file, handed to the backend for unpacked files and stored in Key.Data originates from Seal output, and key files serialise only the informational fields; (backend-save-callers) Backend.Save is called only from the classified savers in package repository and from wrappers forwarding their own handle. Not decided: secrecy of AES-CTR output, compression side channels, pack-size leakage.",
+		Explanation: "Decides: (fresh-nonce) every call of (*crypto.Key).Seal in the program takes a nonce that originates solely from a crypto.NewRandomNonce() call in the same function, that call feeds exactly one Seal, and the Seal cannot be re-executed without a new nonce call; (rng) NewRandomNonce/NewRandomKey/NewSalt fill the returned buffer from crypto/rand.Read and a short or failed read cannot reach a return; (ciphertext-only) everything added to a pack, written to the pack file, handed to the backend for unpacked files and stored in Key.Data originates from Seal output, and key files serialise only the informational fields; (backend-save-callers) Backend.Save is called only from the classified savers in package repository and from wrappers forwarding their own handle. (savepacker-once) the upload workers call savePacker — which seals and appends the header and uploads the pack — once per packer taken from their queue: a second call for the same packer would store the same blob ciphertexts and nonces under a second name (added after a seeded 'retry once' in the worker). Not decided: secrecy of AES-CTR output, compression side channels, pack-size leakage.",
 		Assumptions: append([]string{"crypto/rand.Read returns unpredictable bytes"}, commonAssumptions...),
 		Technique:   "static analysis: call-site enumeration + backward value-origin slice (go/ssa)",
 		AllConfigs:  true,
 		Run: func(c *eng.Ctx) {
+			ruleSavePackerOnce(c)
 			ruleFreshNonce(c)
 			ruleRNG(c)
 			ruleCiphertextOnly(c)
 			ruleBackendSaveCallers(c)
 		},
 		Controls: []Control{
+			{Name: "worker-retries-savepacker", File: "internal/repository/packer_uploader.go",
+				Old: "					err := repo.savePacker(ctx, t.tpe, t.packer)\n", New: "					err := repo.savePacker(ctx, t.tpe, t.packer)\n					if err != nil && ctx.Err() == nil {\n						err = repo.savePacker(ctx, t.tpe, t.packer)\n					}\n", Rule: "savepacker-once"},
 			{Name: "reuse-nonce-for-header", File: "internal/repository/pack/pack.go",
 				Old: "encryptedHeader = p.k.Seal(encryptedHeader, nonce, header, nil)", New: "encryptedHeader = p.k.Seal(encryptedHeader, encryptedHeader[:16], header, nil)", Rule: "fresh-nonce"},
 			{Name: "save-plaintext-blob", File: "internal/repository/repository.go",
